@@ -57,3 +57,11 @@ claim("C45", SM,
       "names x 4 functions is replayed on libimp (returned addresses, fad2info/fad2cname inverses), and 900-call "
       "histories giving one library more than 256 functions are validated by TLC with the real constants.",
       "TLC; only the fake-library path of libimp (lib_get_add_base/lib_get_add_func)", "DESIGN.md 5/C45, B.8", "LibImp")
+
+claim("C30", SM,
+      "AsmCFG.tla: blocks with at most one constraint per destination, edges with kinds, pendings; TLC checks "
+      "EdgesMirror / PendingsExact / NodesAreBlocks on every reachable state over 3 loc_keys (self-loops, merges, "
+      "direct bto edits followed by rebuild_edges) and every transition is replayed on AsmCFG (edges2constraint, "
+      "graph edges, successor/predecessor views, pendings, block.bto); random histories over 6 loc_keys validated by TLC.",
+      "TLC; well-formed blocks; edge ops between present blocks; non-conflicting merges; while bto is edited directly only rebuild_edges is called",
+      "DESIGN.md 5/C30, B.3", "AsmCFG")
